@@ -15,8 +15,8 @@ Theorem C01 : forall rules meth panics_inside mutating
 Proof. exact C01_proved. Qed.
 Print Assumptions C01.
 Theorem C01_hypothesis_needed : 
-  rules_ok d3_rules nomut /\ NoDup (map e_key d3_entries) /\ snd (fst d3_run) = d3_recs /\
-  exists pre r post n k, d3_recs = (pre ++ r :: post)%list /\ cr_exec r = Some (n, k) /\ cr_started r = true /\
-    when_from_scratch d3_rules nometh (facts_after d3_rules nometh d3_facts pre) k = CFalse.
+  rules_ok d2_rules nomut /\ NoDup (map e_key d2_entries) /\ snd (fst d2_run) = d2_recs /\
+  exists pre r post n k, d2_recs = (pre ++ r :: post)%list /\ cr_exec r = Some (n, k) /\ cr_started r = true /\
+    when_from_scratch d2_rules nometh (facts_after d2_rules nometh d2_facts pre) k = CFalse.
 Proof. exact C01_without_dependency_hypothesis_refuted. Qed.
 Print Assumptions C01_hypothesis_needed.
